@@ -7,7 +7,7 @@ CLAIMED = {
 
 
  "C01": ("property-based testing / fuzzing: class-biased token soup and damaged programs under catch_unwind in-process, depth ladder per recursive construct in child processes under a watchdog, both build profiles (libFuzzer byte target planned in thorough tier)",
-         "Exploration: hundreds of thousands of generated strings (every adjacency of the tokenizer's character classes, multi-byte scalars, unterminated constructs) go through parse/execute/expr/describe; every recursive construct is nested 1..48, 64, 100, 300, 1000 (must never abort), 3000 and 10000 deep (known stack findings by construct) in dev and release builds. Held on everything explored apart from the listed known findings.",
+         "Exploration: ~600k generated strings (every adjacency of the tokenizer's character classes, multi-byte scalars, unterminated constructs, damaged programs) and the operator x edge-palette programs go through parse/execute/expr/describe in the dev and the release build; every recursive construct is nested 1..48, 64, 100, 300, 1000 (must never abort), 3000 and 10000 deep (known stack findings by construct; iterative constructs up to 10^6) in both builds. Held on everything explored apart from the listed known findings.",
          "Termination is decided by watchdog only (30 s vs. milliseconds, reproduced three times); absence of panics is not proven.",
          "DESIGN.md §4 C01"),
 
@@ -36,7 +36,7 @@ CLAIMED = {
          "Concurrent bursts sample free-running interleavings; the harness's own registrations are modelled.",
          "DESIGN.md §4 C16"),
  "C05": ("property-based testing with an exhaustive component: all token sequences up to length 5 (quick) / 6 (thorough) over a 22-symbol alphabet, plus generated corruptions of valid programs, against a lenient nondeterministic reference recogniser (one-directional oracle)",
-         "Exploration, exhaustive over the stated finite space: every sequence of <= 5 (6) tokens over the class alphabet and ~300k corruptions are parsed; whenever no lenient reading of the documented grammar exists the engine must return Err.",
+         "Exploration, exhaustive over the stated finite space: every sequence of <= 5 (6) tokens over the class alphabet, ~3M corruptions (token level, character level, number-shaped junk) and parse/register/parse histories in fresh processes are parsed; whenever no lenient reading of the documented grammar exists the engine must return Err.",
          "Trusts the recogniser as the lenient reading of the grammar (it can only err toward accepting, which asserts nothing). Acceptance of valid programs is C02/C11/C12's job.",
          "DESIGN.md §4 C05"),
  "C10": ("property-based testing: span invariants on every generated string plus differential comparison with a reference tokenizer written from the documented rules; by-construction token streams; extended operator tables and tokenize/register/tokenize histories in fresh child processes",
@@ -57,7 +57,7 @@ CLAIMED = {
          "Needs the cfg-guarded init probe; deadlock = 10 s watchdog reproduced; the listed known finding (torn registration) is tolerated by exact signature only.",
          "DESIGN.md §4 C13"),
  "C14": ("exhaustive matrix plus generated chains in fresh child processes: every handler kind x every re-entrant action, each handler probing all engine locks with try_lock before acting, under a watchdog",
-         "Exploration, exhaustive over the stated matrix: 7 handler kinds x 10 re-entrant actions, all ordered kind pairs x 3 actions, and ~800 generated chains of 2-4 handlers; every handler finds all registries and the evaluating context unlocked, the action completes and the outer evaluation returns the hand-computed value.",
+         "Exploration, exhaustive over the stated matrix: 8 handler kinds x 10 re-entrant actions, all ordered kind pairs x 3 actions, and ~8000 generated chains of 2-4 handlers; every handler finds all registries and the evaluating context unlocked, the action completes and the outer evaluation returns the hand-computed value.",
          "Lock state through the cfg-guarded locks_free() hook and the context's public mutex; single-threaded evaluations, so a held lock is attributable to the engine.",
          "DESIGN.md §4 C14"),
  "C18": ("stateful property testing: generated descriptor-registration histories in fresh child processes over 1-3 persistent threads; describe() of every AST after every step on every thread against a model registry of marker descriptors; exhaustive single-registration table",
